@@ -33,6 +33,12 @@ class Shuffle(zope.testrunner.feature.Feature):
             # we can't introspect the seed later for reporting.  This is a
             # simple emulation of what random.Random.seed does anyway.
             self.seed = int(time.time() * 256)  # use fractional seconds
+            args = getattr(runner.options, 'original_testrunner_args', None)
+            if self.active and args is not None:
+                # Layers run in subprocesses must shuffle with this seed,
+                # not with one derived from their own clock.
+                runner.options.original_testrunner_args = list(args) + [
+                    '--shuffle-seed', str(self.seed)]
 
     def global_setup(self):
         rng = random.Random(self.seed)
